@@ -9,6 +9,7 @@ var Registry = map[string]func(*core.Ctx){
 	"C12": RunC12,
 	"C13": RunC13,
 	"C14": RunC14,
+	"C15": RunC15,
 	"C20": RunC20,
 }
 
@@ -19,4 +20,5 @@ func RegisterOnly(c *core.Ctx) {
 	registerCoseKinds(c)
 	registerCrypterKinds(c)
 	registerKexKinds(c)
+	registerChunkKinds(c)
 }
